@@ -68,6 +68,8 @@ def run_kernel(prop, kmodname, tier):
             print("HARNESS-ERROR property=%s kernel witness n=%s mode=%s req=%s (%s) does not reproduce on the "
                   "real code" % (prop, n, mode, req, desc))
             code = max(code, EXIT_HARNESS)
+    if nviol:
+        code = EXIT_VIOLATION       # a reproduced violation is reported as such
     for n, mode, what in incon[:5]:
         print("INCONCLUSIVE property=%s kernel n=%s mode=%s %s" % (prop, n, mode, what))
     print("  kernel: %s" % {k: v for k, v in cov.items() if k != "kernel_functions_encoded"})
@@ -95,6 +97,8 @@ def run_A(prop, modname, tier, seed, kmodname=None):
         kcode, kcov, kviol = run_kernel(prop, kmodname, tier)
         code = max(code, kcode)
         violations += kviol
+        if violations:
+            code = EXIT_VIOLATION
     wall = time.time() - t0
     paths = sum(r["paths"] for r in records.values())
     reached = sum(r.get("reached", 0) for r in records.values())
@@ -156,10 +160,24 @@ def main(argv=None):
     a = ap.parse_args(argv)
     seed = int(os.environ.get("VERIF_SEED", "0") or 0)
     if a.replay:
-        from . import replay
+        spec = json.load(open(a.replay))
+        if "module" in spec:                       # Engine A counterexample: stubs, then the real backends
+            from . import replay
 
-        sys.argv = ["replay", a.replay]
-        replay.main()
+            sys.argv = ["replay", a.replay]
+            replay.main()
+        elif "x" in spec and "err" in spec:        # C20 witness: the real function read by the independent reader
+            from .engine_b import c20
+
+            text, exc = c20.real_call(spec["x"], spec["err"])
+            ok, why = (False, exc) if exc else c20.reader_ok(text, spec["x"], spec["err"])
+            print(json.dumps({"reproduced": not ok, "output": text, "detail": why}))
+        elif "request" in spec:                    # Engine B kernel witness (C07 / C19)
+            kmod = importlib.import_module(REGISTRY[spec["property"]][2])
+            broken, why = kmod.replay_fail(spec["n"], spec["mode"], spec["request"])
+            print(json.dumps({"reproduced": bool(broken), "detail": why}))
+        else:
+            print(json.dumps({"reproduced": None, "detail": "unknown replay file"}))
         return 0
     if a.prop not in REGISTRY:
         print("unknown or unclaimed property", a.prop)
